@@ -78,7 +78,7 @@ def specWindow (o : UpdObs) : Option Clause :=
 
 /-- The whole predicate for one observed update. -/
 def specUpdate (o : UpdObs) : Option Clause :=
-  if o.noop then (if o.postSegs = o.preSegs then none else some .noopUpdate)
+  if o.noop then (if canon o.postSegs = canon o.preSegs then none else some .noopUpdate)
   else match specWindow o with
     | some c => some c
     | none => specQueries o o.queries
